@@ -7,6 +7,7 @@ import (
 	"regexp"
 	"strings"
 	"sync"
+	"unicode/utf8"
 
 	"verif/ev"
 	"verif/gen"
@@ -166,7 +167,8 @@ func init() {
 					for si, sp := range splits {
 						p := proseMenu[(li+k+si)%len(proseMenu)]
 						md, pos := mdFile(nl, sp, p.text, "")
-						djobs = append(djobs, djob{md, pos[li], at + 1, fmt.Sprintf("line %d token %d split=%b prose=%s", li, k, sp, p.name)})
+						// columns count characters, not bytes (a code line may contain non-ASCII literals)
+						djobs = append(djobs, djob{md, pos[li], utf8.RuneCountInString(l[:at]) + 1, fmt.Sprintf("line %d token %d split=%b prose=%s", li, k, sp, p.name)})
 					}
 				}
 			}
